@@ -152,6 +152,29 @@ def make_prof_class(rec, phase):
                 rec.ops.append(('G', cb, ca))
 
         if phase == 'A':
+            # windows the PROGRAM opens and closes itself (`with prof:`, prof.enable_by_count() in its own files), as
+            # opposed to the ones the wrappers and the auto-profiling hook open: while the program holds one open, its
+            # thread must stay enabled
+            def enable_by_count(self):
+                if sys._getframe(1).f_code.co_filename in rec.files:
+                    rec.ops.append(('WO', rec.tid()))
+                LineProfiler.enable_by_count(self)
+
+            def disable_by_count(self):
+                if sys._getframe(1).f_code.co_filename in rec.files:
+                    rec.ops.append(('WC', rec.tid()))
+                LineProfiler.disable_by_count(self)
+
+            def __enter__(self):
+                if sys._getframe(1).f_code.co_filename in rec.files:
+                    rec.ops.append(('WO', rec.tid()))
+                LineProfiler.enable_by_count(self)
+
+            def __exit__(self, *a):
+                if sys._getframe(1).f_code.co_filename in rec.files:
+                    rec.ops.append(('WC', rec.tid()))
+                LineProfiler.disable_by_count(self)
+
             def enable(self):
                 rec.ops.append(('E', rec.tid()))
 
